@@ -1262,4 +1262,38 @@ theorem misread_false {c : Conn} {p : Packet} (hs : tokS tl c) (hp : pktOk tl p)
       cases ctl <;> first | rfl | (have := hp rfl; rcases hh with hh | hh <;> simp [hh, hasToken, this])
     | chunks a t rr n cs => have := hp rfl; rcases hh with hh | hh <;> simp [hh, hasToken, this]
 
+/-! ## the `new_accept_token` start -/
+
+theorem initAccept_inv (now token k : Nat) :
+    WInv (proto6 false) core Conn6.cfg (World.initAccept6 now token k) := by
+  have ha : absEnd (proto6 false) core (World.initAccept6 now token k).a = AEnd.init := rfl
+  unfold WInv
+  rw [ha]
+  refine (AInv.quiet (x := AEnd.init) (x' := absEnd (proto6 false) core (World.initAccept6 now token k).b)
+    (AInv.init Conn6.cfg).symm
+    (absEnd (proto6 false) core (World.initAccept6 now token k).b).out (Or.inl rfl) (List.nil_append _).symm
+    rfl rfl rfl rfl ?_).symm
+  intro e he
+  simp only [absEnd, World.initAccept6, List.mem_filterMap] at he
+  obtain ⟨dg, hdg, hde⟩ := he
+  have := List.eq_of_mem_replicate hdg
+  subst this
+  simp only [absEnt, proto6, view, Option.map_some, Option.some.injEq] at hde
+  subst hde
+  exact ⟨rfl, rfl, rfl, .new, rfl, rfl⟩
+
+theorem initAccept_hs (now token k : Nat) : HInv (proto6 false) late (World.initAccept6 now token k) :=
+  ⟨⟨Or.inl rfl, fun h => absurd rfl h⟩, ⟨Or.inl rfl, fun h => absurd rfl h⟩⟩
+
+theorem initAccept_loc (now token k : Nat) :
+    LInv (P := proto6 false) (tokS false) (pktOk false) (World.initAccept6 now token k) := by
+  refine ⟨⟨fun t ht => by simp [World.initAccept6, Conn.new, State.token?] at ht, by intro dg h; simp [World.initAccept6] at h⟩,
+    ⟨fun t ht => ?_, ?_⟩⟩
+  · simp [World.initAccept6, Conn.newAcceptToken, State.token?] at ht
+    subst ht; rfl
+  · intro dg hdg
+    have := List.eq_of_mem_replicate hdg
+    subst this
+    intro _; rfl
+
 end Tw.NetSim.P6
